@@ -203,7 +203,7 @@ func C06_Jobs() []string {
 		ks := string(rune('0'+k/10)) + string(rune('0'+k%10))
 		out = append(out, "struct/"+ks, "prim/"+ks, "slice/"+ks, "ptr/"+ks)
 	}
-	out = append(out, "json", "json-ptr", "env", "longkey", "validate-nil-ptrs", "two-dest-types", "long-slices", "struct-input", "odd-tags/parse", "odd-tags/validate", "nil-body", "iface-custom", "uncomparable-contains")
+	out = append(out, "json", "json-ptr", "env", "longkey", "validate-nil-ptrs", "two-dest-types", "long-slices", "struct-input", "odd-tags/parse", "odd-tags/validate", "nil-body", "iface-custom", "uncomparable-contains", "time-strings")
 	return out
 }
 func C06_Covers() []string { return []string{"returned"} }
@@ -378,6 +378,22 @@ func C06_Run(job string) {
 			Parse(zjsonList(`{"l":[{"name":"a","meta":[1]},{"name":"b","meta":{"k":[2]}},{"name":"a","meta":{"k":1}}]}`), &d2)
 		d3 := []map[string]int{{"a": n}}
 		z.Slice(z.CustomFunc(func(p *map[string]int, ctx z.Ctx) bool { return true })).Contains(map[string]int{"a": 1}).Validate(&d3)
+	case "time-strings":
+		// strings of every length up to 12 bytes (arbitrary bytes) into Time schemas, plain and
+		// with a layout: a malformed instant is a coercion issue
+		// (the length is the enumerated dimension: prefixes of a well-formed and of a malformed text)
+		n := v.Choice("len", 22)
+		s := []string{"2024-01-01T10:20:30Z!", "xxxxxxxxxxxxxxxxxxxxx", "2024-01-01 10:20:30Z "}[v.Choice("text", 3)][:n]
+		var t time.Time
+		switch v.Choice("schema", 3) {
+		case 0:
+			z.Time().Parse(s, &t)
+		case 1:
+			z.Time(z.Time.Format("2006-01-02")).Parse(s, &t)
+		default:
+			var d struct{ T time.Time }
+			z.Struct(z.Schema{"t": z.Time().Required()}).Parse(map[string]any{"t": s}, &d)
+		}
 	case "nil-body":
 		// a request without a body (http.NewRequest(method, url, nil) leaves Body nil) through
 		// every content type and method
